@@ -180,7 +180,12 @@ let bcast fx cfgtok evtok =
     | None -> toks
     | Some s -> let s = int_of_n s in
       toks @ [if s >= 1000 then Printf.sprintf "err0x%x" (s - 1000) else panic_tok (n_of_int s)] in
-  if toks = [] then "-" else String.concat "," toks
+  let base = if toks = [] then "-" else String.concat "," toks in
+  match p, MediaCodecGlue.m_gfinal fx cfg evs with
+  | None, Some g ->
+    Printf.sprintf "%s s=%s/%s/%s/%s" base (bool_tok g.MediaBroadcast.g_acodec) (bool_tok g.MediaBroadcast.g_vcodec)
+      (hex_n g.MediaBroadcast.g_w) (hex_n g.MediaBroadcast.g_h)
+  | _ -> base
 
 let register () =
   Registry.register "c05.cls" (function [t; p] -> cls fx t p | _ -> "bad-args");
